@@ -1,1 +1,200 @@
-def main : IO Unit := IO.println "stub"
+import Nsq.Model.Line
+import Nsq.Model.Registry
+import Nsq.Model.RegistryProto
+/-! Driver for engine E4 (nsqlookupd): replays `.ops` lines through the Registry / RegistryProto
+models and prints one canonical answer line per op (see harness/e4/*_test.go for the writer).
+
+  conf <inactive> <tombLife> <unit> <variant:fixed|unfixed> <hex topic>,<hex topic>,…
+  reset
+  <now> identify <p> <bcast> <host> <ver> <tcp> <http>
+  <now> register|unregister <p> <hex param>…
+  <now> ping|disconnect <p>
+  <now> http <handler> <bad 0|1> <topic|_> <channel|_> <node|_>
+  <now> raw <method> <path> <bad 0|1> <topic|_> <channel|_> <node|_>
+  <now> stream <p> <hex bytes> [<hex body>=<bcast>/<host>/<ver>/<tcp>/<http> …]
+  <now> q
+  noq <line>   apply, print `noq`;   st <line>   apply, print only the reply (no query answers)
+-/
+open Nsq Nsq.Line Nsq.Model.Registry Nsq.Model.RegistryProto
+
+structure DSt where
+  conf : Conf := ⟨0, 0⟩
+  unit : Int := 1
+  variant : Variant := fixedV
+  topics : List Name := []
+  reg : Registry := init
+
+def nm (n : Name) : String := bytesToString n
+
+def sortStrs (l : List String) : List String := (l.toArray.qsort (· < ·)).toList
+
+def joinS (l : List String) : String := ",".intercalate (sortStrs l)
+
+def infoStr (i : Info) : String := s!"{nm i.bcast}:{nm i.host}:{nm i.ver}:{i.tcp}:{i.http}"
+
+def catStr : Cat → String
+  | .client => "client" | .topic => "topic" | .channel => "channel"
+
+def ageOf (s : DSt) (now t : Int) : Int := (now - t) / s.unit
+
+def queries (s : DSt) (now : Int) : String :=
+  let r := s.reg
+  let t := "T=" ++ joinS ((qTopics r).map nm)
+  let cs := s.topics.map (fun tp => s!"C[{nm tp}]=" ++ joinS ((qChannels r tp).map nm))
+  let ls := s.topics.map (fun tp =>
+    match qLookup s.conf r tp now with
+    | none => s!"L[{nm tp}]=404"
+    | some a => s!"L[{nm tp}]=ch=" ++ joinS (a.channels.map nm) ++ ";pr=" ++
+        joinS (a.producers.map (fun e => s!"{e.1}:{infoStr e.2}")))
+  let ns := "N=" ++ joinS ((qNodes s.conf r now).map (fun n =>
+    s!"{n.id}:{infoStr n.info}" ++ "{" ++
+      joinS (n.topics.map (fun tb => s!"{nm tb.1}={if tb.2 then 1 else 0}")) ++ "}"))
+  let ds := "D=" ++ " ".intercalate (sortStrs ((qDebug r).map (fun e =>
+    s!"{catStr e.1.cat}:{nm e.1.key}:{nm e.1.sub}[" ++
+      joinS (e.2.map (fun d => s!"{d.id}:{ageOf s now d.lastUpdate}:" ++
+        (if d.tombstoned then s!"1:{ageOf s now d.tombAt}" else "0"))) ++ "]")))
+  " | ".intercalate ([t] ++ cs ++ ls ++ [ns, ds])
+
+def tcpOutStr : TcpOut → String
+  | .ok => "OK"
+  | .identified => "IDENTIFIED"
+  | .err c msg => codeName c ++ " " ++ hex msg
+
+def httpOutStr : HttpOut → String
+  | .ok => "200"
+  | .err st msg => s!"{st} {msg}"
+
+def optArg (w : String) : Option (Option Name) :=
+  if w = "_" then some none else (unhex w).map some
+
+def parseArgs (bad t c n : String) : Option HttpArgs :=
+  match optArg t, optArg c, optArg n with
+  | some t, some c, some n => some ⟨bad = "1", t, c, n⟩
+  | _, _, _ => none
+
+def unhexAll : List String → Option (List Name)
+  | [] => some []
+  | w :: ws =>
+    match unhex w, unhexAll ws with
+    | some b, some bs => some (b :: bs)
+    | _, _ => none
+
+def parseInfo (bc ho ve tcp http : String) : Option Info :=
+  match unhex bc, unhex ho, unhex ve, tcp.toInt?, http.toInt? with
+  | some bc, some ho, some ve, some tcp, some http => some ⟨bc, ho, ve, tcp, http⟩
+  | _, _, _, _, _ => none
+
+/-- `body=bcast/host/ver/tcp/http` entries: what json.Unmarshal returned for those bodies -/
+def parseDecode : List String → List (List UInt8 × Info)
+  | [] => []
+  | w :: ws =>
+    match w.splitOn "=" with
+    | [b, i] =>
+      match unhex b, i.splitOn "/" with
+      | some b, [bc, ho, ve, tcp, http] =>
+        match parseInfo bc ho ve tcp http with
+        | some inf => (b, inf) :: parseDecode ws
+        | none => parseDecode ws
+      | _, _ => parseDecode ws
+    | _ => parseDecode ws
+
+def decodeOf (tbl : List (List UInt8 × Info)) (b : List UInt8) : Option Info :=
+  (tbl.find? (fun e => e.1 = b)).map (·.2)
+
+def endStr : End → String
+  | .panic => "panic"
+  | _ => "closed"
+
+def withQ (s : DSt) (now : Int) (out : String) : DSt × String := (s, out ++ " | " ++ queries s now)
+
+def stepLine1 (s : DSt) (line : String) : DSt × String :=
+  match words line with
+  | ["conf", ina, tl, unit, v, tps] =>
+    match ina.toInt?, tl.toInt?, unit.toInt?, unhexAll ((tps.splitOn ",").filter (· ≠ "")) with
+    | some ina, some tl, some unit, some tps =>
+      ({ s with conf := ⟨ina, tl⟩, unit := unit, topics := tps,
+                variant := if v = "unfixed" then unfixedV else fixedV }, "conf")
+    | _, _, _, _ => (s, "bad-op")
+  | ["reset"] => ({ s with reg := init }, "reset")
+  | nowS :: rest =>
+    match nowS.toInt? with
+    | none => (s, "bad-op")
+    | some now =>
+      match rest with
+      | ["q"] => withQ s now "q"
+      | ["identify", p, bc, ho, ve, tcp, http] =>
+        match p.toNat?, parseInfo bc ho ve tcp http with
+        | some p, some inf =>
+          let x := identify s.reg p inf now
+          withQ { s with reg := x.1 } now (tcpOutStr x.2)
+        | _, _ => (s, "bad-op")
+      | "register" :: p :: params =>
+        match p.toNat?, unhexAll params with
+        | some p, some ps =>
+          let x := register s.reg p ps
+          withQ { s with reg := x.1 } now (tcpOutStr x.2)
+        | _, _ => (s, "bad-op")
+      | "unregister" :: p :: params =>
+        match p.toNat?, unhexAll params with
+        | some p, some ps =>
+          let x := unregister s.reg p ps
+          withQ { s with reg := x.1 } now (tcpOutStr x.2)
+        | _, _ => (s, "bad-op")
+      | ["ping", p] =>
+        match p.toNat? with
+        | some p => withQ { s with reg := ping s.reg p now } now "OK"
+        | none => (s, "bad-op")
+      | ["disconnect", p] =>
+        match p.toNat? with
+        | some p => withQ { s with reg := disconnect s.reg p } now "closed"
+        | none => (s, "bad-op")
+      | ["http", h, bad, t, c, n] =>
+        match parseArgs bad t c n with
+        | none => (s, "bad-op")
+        | some a =>
+          let x : Option (Registry × HttpOut) :=
+            if h = "createTopic" then some (createTopic s.reg a)
+            else if h = "deleteTopic" then some (deleteTopic s.reg a)
+            else if h = "createChannel" then some (createChannel s.reg a)
+            else if h = "deleteChannel" then some (deleteChannel s.reg a)
+            else if h = "tombstone" then some (tombstone s.reg a now)
+            else none
+          match x with
+          | some x => withQ { s with reg := x.1 } now (httpOutStr x.2)
+          | none => (s, "bad-op")
+      | ["raw", m, path, bad, t, c, n] =>
+        match parseArgs bad t c n with
+        | none => (s, "bad-op")
+        | some a =>
+          let x := httpStep s.conf s.reg m path a now
+          withQ { s with reg := x.1 } now s!"status={x.2}"
+      | "stream" :: p :: bytes :: dec =>
+        match p.toNat?, unhex bytes with
+        | some p, some bs =>
+          let res := handle s.variant (decodeOf (parseDecode dec)) s.reg p now bs
+          withQ { s with reg := res.reg } now
+            (s!"fin={endStr res.fin} replies=" ++ ",".intercalate (res.replies.map hex))
+        | _, _ => (s, "bad-op")
+      | _ => (s, "bad-op")
+  | _ => (s, "bad-op")
+
+/-- `noq <line>`: apply the line, print no answers (concurrent histories) -/
+def stepLine (s : DSt) (line : String) : DSt × String :=
+  match words line with
+  | "noq" :: rest => ((stepLine1 s (" ".intercalate rest)).1, "noq")
+  | "st" :: rest =>
+    ((stepLine1 s (" ".intercalate rest)).1,
+     (((stepLine1 s (" ".intercalate rest)).2.splitOn " | ").headD ""))
+  | _ => stepLine1 s line
+
+partial def loop (h : IO.FS.Stream) (out : IO.FS.Stream) (s : DSt) : IO Unit := do
+  let line ← h.getLine
+  if line.isEmpty then return ()
+  let r := stepLine s (line.dropRightWhile (· == '\n'))
+  out.putStrLn r.2
+  loop h out r.1
+
+def main : IO Unit := do
+  let out ← IO.getStdout
+  loop (← IO.getStdin) out {}
+  out.flush
